@@ -42,6 +42,16 @@ type lcStep struct {
 func lcAccessories(s string, variant int) (*accessory.Accessory, []*accessory.Accessory, *accessory.Switch) {
 	sw := accessory.NewSwitch(accessory.Info{Name: "Lifecycle"})
 	sw.Switch.On.Description = fmt.Sprintf("variant %d", variant)
+	if variant%5 == 4 {
+		// the two structures differ in nothing but the id of a bridged accessory, and that id is large (derived from an
+		// EUI-64, say): 2^53 and beyond, where neighbouring numbers are one and the same float64
+		big := uint64(0x842E14FFFE123456)
+		if s == "s2" {
+			big++
+		}
+		lb := accessory.NewLightbulb(accessory.Info{Name: "Bridged", ID: big})
+		return sw.Accessory, []*accessory.Accessory{lb.Accessory}, sw
+	}
 	switch s {
 	case "s1":
 		return sw.Accessory, nil, sw
